@@ -76,6 +76,10 @@ pub assume_specification[ char::is_ascii_lowercase ](c: &char) -> (r: bool) ensu
 pub assume_specification[ char::is_ascii_alphabetic ](c: &char) -> (r: bool) ensures r == ascii_alpha(*c);
 #[verifier::when_used_as_spec(ref_ascii_alnum)]
 pub assume_specification[ char::is_ascii_alphanumeric ](c: &char) -> (r: bool) ensures r == ascii_alnum(*c);
+pub open spec fn ascii_ws(c: char) -> bool { c == ' ' || c == '\t' || c == '\n' || c == '\x0C' || c == '\r' }
+pub open spec fn ref_ascii_ws(c: &char) -> bool { ascii_ws(*c) }
+#[verifier::when_used_as_spec(ref_ascii_ws)]
+pub assume_specification[ char::is_ascii_whitespace ](c: &char) -> (r: bool) ensures r == ascii_ws(*c);
 #[verifier::when_used_as_spec(ref_is_ascii_c)]
 pub assume_specification[ char::is_ascii ](c: &char) -> (r: bool) ensures r == is_ascii_c(*c);
 
@@ -107,8 +111,11 @@ pub broadcast axiom fn axiom_str_len_bound(s: &str)
 pub broadcast axiom fn axiom_chars_le_bytes(s: &str)
     ensures #[trigger] s@.len() <= s.spec_bytes().len();
 
+pub broadcast axiom fn axiom_encode_len(s: Seq<char>)
+    ensures #[trigger] vstd::utf8::encode_utf8(s).len() >= s.len();
+
 pub broadcast group group_vx_axioms {
-    axiom_str_len_bound, axiom_chars_le_bytes,
+    axiom_str_len_bound, axiom_chars_le_bytes, axiom_encode_len,
     axiom_uni_alphabetic_ascii, axiom_uni_numeric_ascii, axiom_uni_uppercase_ascii, axiom_uni_lowercase_ascii,
     axiom_string_eq_str, axiom_string_obeys_eq_str, axiom_string_eq_refstr, axiom_string_obeys_eq_refstr,
     axiom_str_eq_string, axiom_str_obeys_eq_string, axiom_refstr_eq_string, axiom_refstr_obeys_eq_string,
@@ -268,6 +275,19 @@ pub open spec fn trail_count(s: Seq<char>, f: spec_fn(char) -> bool) -> int
 {
     if s.len() > 0 && f(s.last()) { 1 + trail_count(s.drop_last(), f) } else { 0 }
 }
+pub open spec fn trail_char(s: Seq<char>, c: char) -> int
+    decreases s.len()
+{
+    if s.len() > 0 && s.last() == c { 1 + trail_char(s.drop_last(), c) } else { 0 }
+}
+pub open spec fn lead_char(s: Seq<char>, c: char) -> int
+    decreases s.len()
+{
+    if s.len() > 0 && s[0] == c { 1 + lead_char(s.subrange(1, s.len() as int), c) } else { 0 }
+}
+/// str::trim_end_matches(c) / trim_start_matches(c) for a char pattern
+pub open spec fn trim_end_char_spec(s: Seq<char>, c: char) -> Seq<char> { s.subrange(0, s.len() - trail_char(s, c)) }
+pub open spec fn trim_start_char_spec(s: Seq<char>, c: char) -> Seq<char> { s.subrange(lead_char(s, c), s.len() as int) }
 pub open spec fn trim_start_spec(s: Seq<char>, f: spec_fn(char) -> bool) -> Seq<char> { s.subrange(lead_count(s, f), s.len() as int) }
 pub open spec fn trim_end_spec(s: Seq<char>, f: spec_fn(char) -> bool) -> Seq<char> { s.subrange(0, s.len() - trail_count(s, f)) }
 pub open spec fn trim_spec(s: Seq<char>) -> Seq<char> { trim_end_spec(trim_start_spec(s, |c: char| ws(c)), |c: char| ws(c)) }
@@ -279,6 +299,8 @@ pub open spec fn replace_char_spec(s: Seq<char>, from: char, to: Seq<char>) -> S
 }
 /// str::lines(): split at '\n', a trailing '\r' of each line removed, a final empty line not reported
 pub uninterp spec fn lines_spec(s: Seq<char>) -> Seq<Seq<char>>;
+/// the non-empty lines of `lines_spec`, in order
+pub uninterp spec fn nonempty_lines_spec(s: Seq<char>) -> Seq<Seq<char>>;
 /// str::split(p) for a non-empty pattern
 pub uninterp spec fn split_spec(s: Seq<char>, p: Seq<char>) -> Seq<Seq<char>>;
 pub uninterp spec fn upper_spec(s: Seq<char>) -> Seq<char>;
@@ -360,17 +382,21 @@ pub trait VxStr {
     fn vx_strip_prefix<'a, P: VxPat>(&'a self, p: P) -> (r: Option<&'a str>)
         ensures r.is_some() == is_sub_at(self.sv(), p.pat_seq(), 0),
                 r.is_some() ==> r.unwrap()@ == self.sv().subrange(p.pat_seq().len() as int, self.sv().len() as int);
-    fn vx_trim<'a>(&'a self) -> (r: &'a str) ensures r@ == trim_spec(self.sv());
-    fn vx_trim_start<'a>(&'a self) -> (r: &'a str) ensures r@ == trim_start_spec(self.sv(), |c: char| ws(c));
-    fn vx_trim_end<'a>(&'a self) -> (r: &'a str) ensures r@ == trim_end_spec(self.sv(), |c: char| ws(c));
-    fn vx_trim_end_matches<'a>(&'a self, c: char) -> (r: &'a str) ensures r@ == trim_end_spec(self.sv(), |x: char| x == c);
-    fn vx_trim_start_matches<'a>(&'a self, c: char) -> (r: &'a str) ensures r@ == trim_start_spec(self.sv(), |x: char| x == c);
+    fn vx_trim<'a>(&'a self) -> (r: &'a str) ensures (vstd::utf8::is_ascii_chars(self.sv()) ==> r.spec_bytes().len() == r@.len()), r@ == trim_spec(self.sv());
+    fn vx_trim_start<'a>(&'a self) -> (r: &'a str) ensures (vstd::utf8::is_ascii_chars(self.sv()) ==> r.spec_bytes().len() == r@.len()), r@ == trim_start_spec(self.sv(), |c: char| ws(c));
+    fn vx_trim_end<'a>(&'a self) -> (r: &'a str) ensures (vstd::utf8::is_ascii_chars(self.sv()) ==> r.spec_bytes().len() == r@.len()), r@ == trim_end_spec(self.sv(), |c: char| ws(c));
+    fn vx_trim_end_matches<'a>(&'a self, c: char) -> (r: &'a str) ensures (vstd::utf8::is_ascii_chars(self.sv()) ==> r.spec_bytes().len() == r@.len()), r@ == trim_end_char_spec(self.sv(), c);
+    fn vx_trim_start_matches<'a>(&'a self, c: char) -> (r: &'a str) ensures (vstd::utf8::is_ascii_chars(self.sv()) ==> r.spec_bytes().len() == r@.len()), r@ == trim_start_char_spec(self.sv(), c);
     fn vx_replace_char(&self, from: char, to: &str) -> (r: String) ensures r@ == replace_char_spec(self.sv(), from, to@);
     fn vx_replace(&self, from: &str, to: &str) -> (r: String) ensures r@ == replace_spec(self.sv(), from@, to@);
     fn vx_to_uppercase(&self) -> (r: String) ensures r@ == upper_spec(self.sv());
     fn vx_to_lowercase(&self) -> (r: String) ensures r@ == lower_spec(self.sv());
     fn vx_lines<'a>(&'a self) -> (r: Vec<&'a str>)
         ensures r@.len() == lines_spec(self.sv()).len(), forall|i: int| 0 <= i < r@.len() ==> (#[trigger] r@[i])@ == lines_spec(self.sv())[i];
+    /// `s.lines().map(|l| l.to_string()).filter(|l| !l.is_empty()).collect()`
+    fn vx_nonempty_lines(&self) -> (r: Vec<String>)
+        ensures r@.len() == nonempty_lines_spec(self.sv()).len(),
+                forall|i: int| 0 <= i < r@.len() ==> (#[trigger] r@[i])@ == nonempty_lines_spec(self.sv())[i] && r@[i]@.len() > 0;
     fn vx_split<'a, P: VxPat>(&'a self, p: P) -> (r: Vec<&'a str>)
         ensures r@.len() == split_spec(self.sv(), p.pat_seq()).len(), r@.len() >= 1,
                 forall|i: int| 0 <= i < r@.len() ==> (#[trigger] r@[i])@ == split_spec(self.sv(), p.pat_seq())[i];
@@ -418,6 +444,7 @@ impl VxStr for str {
     #[verifier::external_body] fn vx_to_uppercase(&self) -> (r: String) { self.to_uppercase() }
     #[verifier::external_body] fn vx_to_lowercase(&self) -> (r: String) { self.to_lowercase() }
     #[verifier::external_body] fn vx_lines<'a>(&'a self) -> (r: Vec<&'a str>) { self.lines().collect() }
+    #[verifier::external_body] fn vx_nonempty_lines(&self) -> (r: Vec<String>) { self.lines().map(|l| l.to_string()).filter(|l| !l.is_empty()).collect() }
     fn vx_split<'a, P: VxPat>(&'a self, p: P) -> (r: Vec<&'a str>) { p.p_split(self) }
     #[verifier::external_body] fn vx_split_at<'a>(&'a self, mid: usize) -> (r: (&'a str, &'a str)) { self.split_at(mid) }
     #[verifier::external_body] fn vx_nth_char(&self, n: usize) -> (r: Option<char>) { self.chars().nth(n) }
@@ -506,6 +533,33 @@ impl VxPad2 for i32 { open spec fn ival(self) -> int { self as int } #[verifier:
 impl VxPad2 for u32 { open spec fn ival(self) -> int { self as int } #[verifier::external_body] fn vx_pad2(self) -> (r: String) { format!("{:02}", self) } }
 impl VxPad2 for u8 { open spec fn ival(self) -> int { self as int } #[verifier::external_body] fn vx_pad2(self) -> (r: String) { format!("{:02}", self) } }
 impl VxPad2 for usize { open spec fn ival(self) -> int { self as int } #[verifier::external_body] fn vx_pad2(self) -> (r: String) { format!("{:02}", self) } }
+
+// ---------------------------------------------------------------- f64 text (machine floating point is NOT modelled)
+/// Rust's f64::from_str accepts every string of ASCII digits with at most one '.', containing at least one digit
+/// (documented grammar of core::num::dec2flt: Number ::= Digit* '.'? Digit*, one digit required)
+pub open spec fn digits_dot(s: Seq<char>) -> bool {
+    s.len() > 0 && (forall|i: int| 0 <= i < s.len() ==> (ascii_digit(#[trigger] s[i]) || s[i] == '.'))
+    && (exists|i: int| 0 <= i < s.len() && ascii_digit(#[trigger] s[i]))
+    && (forall|i: int, j: int| 0 <= i < j < s.len() ==> !(s[i] == '.' && s[j] == '.'))
+}
+pub broadcast axiom fn axiom_f64_decimal(s: Seq<char>)
+    requires digits_dot(s)
+    ensures #[trigger] f64_grammar(s);
+/// `format!("{:.N$}", x)` / `format!("{:.10}", x)`: fixed-point rendering with N decimals (uninterpreted text)
+pub uninterp spec fn fmt_fixed(x: f64, decimals: int) -> Seq<char>;
+#[verifier::external_body]
+pub fn fmt_f64_fixed(x: f64, decimals: usize) -> (r: String)
+    ensures r@ == fmt_fixed(x, decimals as int), is_ascii_chars_f(r@)
+{ format!("{:.width$}", x, width = decimals) }
+pub open spec fn is_ascii_chars_f(s: Seq<char>) -> bool { vstd::utf8::is_ascii_chars(s) }
+/// `x.to_string()` of an f64 (shortest round-trip rendering, uninterpreted)
+pub uninterp spec fn fmt_shortest(x: f64) -> Seq<char>;
+#[verifier::external_body]
+pub fn f64_to_string(x: f64) -> (r: String) ensures r@ == fmt_shortest(x) { x.to_string() }
+/// f64 comparisons used by the amount checks (uninterpreted)
+pub uninterp spec fn f64_le_zero(x: f64) -> bool;
+#[verifier::external_body]
+pub fn f64_le0(x: f64) -> (r: bool) ensures r == f64_le_zero(x) { x <= 0.0 }
 
 // ---------------------------------------------------------------- f64 (machine floating point is NOT modelled: comparisons are uninterpreted predicates)
 pub uninterp spec fn abs_lt(x: f64, bound: f64) -> bool;
